@@ -111,6 +111,16 @@ pub fn exec_corpus(spec: &Spec, st: &mut Stats) -> Vec<u64> {
         per_op.push(st.log.finish());
         return per_op;
     }
+    #[cfg(feature = "jstd")]
+    if spec.pre_new {
+        // the real-clock constructor first (on the calendar date the run asks for): what it returns is the
+        // machine's business and is not logged, but whether it PANICS must not depend on the configuration
+        if let Err(SutFail::Panic(_)) = guard(|| rand_jitter::JitterRng::new().is_ok()) {
+            st.log.str("panic@JitterRng::new");
+            st.count("probe:panic_marker");
+        }
+        st.count("probe:real_clock_new_before_run");
+    }
     let mut g: Box<dyn DynGen> = match build(spec, false) {
         Ok(g) => g,
         Err(RunEnd::Discard(s)) => {
